@@ -449,6 +449,27 @@ def verdict(ctx, mod):
     return code
 
 
+def coqchk(ctx):
+    """Thorough tier: re-check the property's compiled theorems and everything they depend on with the independent
+    checker and record the axioms it reports (none are expected)."""
+    t0 = time.time()
+    rc, out = sh("timeout 1500 coqchk -silent -o -R . BS BS.Props.%s" % ctx.prop, cwd=COQ, timeout=1600)
+    m = re.search(r"\* Axioms:(.*?)\n\s*\n\* Constants/Inductives relying on type-in-type:(.*?)\n\s*\n\* Constants/Inductives relying on unsafe"
+                  r" \(co\)fixpoints:(.*?)\n\s*\n\* Inductives whose positivity is assumed:(.*?)\n", out, re.S)
+    summary = {"exit": rc, "wall_s": round(time.time() - t0, 1)}
+    if m:
+        summary.update({"axioms": m.group(1).strip(), "type_in_type": m.group(2).strip(),
+                        "unsafe_fixpoints": m.group(3).strip(), "assumed_positivity": m.group(4).strip()})
+    else:
+        summary["output_tail"] = out[-800:]
+    ctx.extra_cov["coqchk"] = summary
+    clean = rc == 0 and m and all(g.strip() == "<none>" for g in m.groups())
+    if not clean:
+        ctx.build.proof_ok = False
+        ctx.build.errors.append({"stage": "coqchk", "file": "coq/Props/%s.v" % ctx.prop, "line": 0, "theorem": "coqchk -o",
+                                 "message": json.dumps(summary)[:800]})
+
+
 def run_check(prop, mod, tier, seed, replay=None):
     ctx = Ctx(prop, tier, seed)
     if replay:
@@ -458,6 +479,8 @@ def run_check(prop, mod, tier, seed, replay=None):
     ctx.rule = getattr(mod, "RULE", "")
     if not ctx.build.model_ok:
         ctx.notes.append("extracted model unavailable: correspondence skipped, oracle only")
+    if tier == "thorough" and ctx.build.proof_ok:
+        coqchk(ctx)
     mod.run(ctx)
     broke = (not ctx.build.proof_ok) or bool(ctx.disagreements)
     if broke and not ctx.failures and tier != "thorough":
